@@ -886,6 +886,12 @@ func (env *Env) call(x ECall) TV {
 			cfail("callpred: %v", err)
 		}
 		return r
+	case "cat":
+		a, b := env.comp(x.Args[0]), env.comp(x.Args[1])
+		if a.T == nil || b.T == nil || a.T.Sort != SStr || b.T.Sort != SStr {
+			cfail("cat(string, string)")
+		}
+		return TV{T: CatStr(a.T, b.T), Ty: types.Typ[types.String]}
 	case "strless":
 		// lexicographic order on the abstract string values (a total order: prelude axioms)
 		a, b := env.comp(x.Args[0]), env.comp(x.Args[1])
@@ -971,6 +977,10 @@ func (env *Env) call(x ECall) TV {
 		if want := w.sortOf(sig.params[i]); v.T.Sort != want {
 			cfail("spec %s: argument %d has sort %s, want %s", x.Fn, i+1, v.T.Sort, want)
 		}
+		if sig.sf.Valued && v.T.Sort == SStr {
+			args = append(args, App("sv", "SV", v.T))
+			continue
+		}
 		args = append(args, v.T)
 	}
 	if sig.sf.Inline && sig.body != nil {
@@ -992,6 +1002,10 @@ func (env *Env) call(x ECall) TV {
 	rs := w.sortOf(sig.result)
 	if len(args) == 0 {
 		return TV{T: Sym(sig.name, rs), Ty: sig.result}
+	}
+	if sig.sf.Valued && rs == SStr {
+		// a string-valued function of values: some string with that value
+		return TV{T: App("strof", SStr, App(sig.name, "SV", args...)), Ty: sig.result}
 	}
 	return TV{T: App(sig.name, rs, args...), Ty: sig.result}
 }
@@ -1125,7 +1139,17 @@ func (w *World) specDecls(used map[string]bool, reveal map[string]bool) (decls [
 		var ss []string
 		for _, b := range bs {
 			ps = append(ps, fmt.Sprintf("(%s %s)", b.Name, b.Sort))
-			ss = append(ss, string(b.Sort))
+			if sig.sf.Valued && b.Sort == SStr {
+				ss = append(ss, "SV")
+			} else {
+				ss = append(ss, string(b.Sort))
+			}
+		}
+		if sig.sf.Valued && rs == SStr {
+			rs = "SV"
+		}
+		if sig.sf.Valued && !sig.sf.Uninter {
+			return fmt.Errorf("spec %s: valued functions must be uninterpreted", name)
 		}
 		switch {
 		case sig.sf.Uninter:
